@@ -119,6 +119,10 @@ SN_STEP_RULES = [
     R(r"size_type count = edge\.second;", "size_t count = edge_count[ek];", 1),
     V(r"edge_points\.first", "ep_first"), V(r"edge_points\.second", "ep_second"),
     V(r"m_boundary_nodes\.insert\(([^()]*)\);", r"m_boundary_nodes[FSL_IDX1(\1, m_size)] = 1;"),
+    # row lengths, the class template's neighbour maximum N, and `continue` of the outlined loop body (vocabulary of the objects in scope)
+    V(r"m_neighbors_(?:indices|distances)\[([^\[\]]*)\]\.size\(\)", r"NBN(\1)"),
+    V(r"(?<![\w.])N(?![\w(])", "NB_CAP"),
+    V(r"\bcontinue;", "return; /* `continue` of the outlined loop body */"),
     V(r"m_neighbors_indices\[([^\[\]]*)\]\.push_back\(([^()]*)\);",
       r"{ FSL_PRE(NBN(\1) < NB_CAP); /* row capacity: at most n_neighbors_max neighbours per node (documented precondition of the mesh) */ NBI(\1, NBN(\1)) = (\2); }"),
     V(r"m_neighbors_distances\[([^\[\]]*)\]\.push_back\(([^()]*)\);", r"{ NBD(\1, NBN(\1)) = (\2); NBN(\1) = NBN(\1) + 1; }"),
